@@ -179,7 +179,15 @@ var mutations = []mutation{
 			return false
 		}
 		e = append(types.PreimagesExtrinsic(nil), e...)
-		e[0], e[len(e)-1] = e[len(e)-1], e[0]
+		switch ru.t.Choose(3, "unsorted_how") {
+		case 0:
+			e[0], e[len(e)-1] = e[len(e)-1], e[0]
+		case 1: // two neighbours
+			k := ru.t.Choose(len(e)-1, "swap_at")
+			e[k], e[k+1] = e[k+1], e[k]
+		default: // the first entry moves to the end
+			e = append(e[1:], e[0])
+		}
 		b.Extrinsic.Preimages = e
 		fixExtrinsicHash(b)
 		return true
